@@ -455,6 +455,11 @@ func (m *Encoder) encodeTimeDate(v reflect.Value) error {
 
 // EncodeDecimal encodes an ion.Decimal to the output writer as an Ion decimal.
 func (m *Encoder) encodeDecimal(v reflect.Value) error {
+	if !v.CanAddr() {
+		// A Decimal passed by value (e.g. inside an interface{}) has no address; encode a copy.
+		d := v.Interface().(Decimal)
+		return m.w.WriteDecimal(&d)
+	}
 	d := v.Addr().Interface().(*Decimal)
 	return m.w.WriteDecimal(d)
 }
